@@ -74,7 +74,7 @@ def body_factory(tier, seed):
 
 def run(rep, tier, seed):
     return C.standard_run(
-        rep, "C01", ["Model/CaseDispatch.vo"], body_factory(tier, seed),
+        rep, "C01", ["Model/CaseDispatch.vo"], [body_factory(tier, seed + 1000 * i) for i in range(3 if tier == "thorough" else 1)],
         rule="one case = (version, registered routes with scripted handler/hook outcomes, one inbound frame); "
              "structured stream (valid and single-constraint-violating CALLs of sampled actions x handler outcomes x hook "
              "outcomes x sync/async x signature shapes x skip flags; unhandled actions; after-only routes) plus a malformed "
